@@ -6,7 +6,7 @@ from hypothesis import strategies as st
 
 from .. import simcheck
 from ..runner import Outcome, call_lcm, case_digest
-from ..strategies import Profile, materialise_agents, model_specs, raw_agents
+from ..strategies import Profile, expand_agents, materialise_agents, model_specs, raw_agents
 from .c01 import model_classes, prepare, sample_of
 
 ID = "C08"
@@ -14,7 +14,7 @@ TITLE = "Agents are simulated independently of each other"
 BUDGET = {"quick": 120, "thorough": 1500}
 RULE = (
     "Cases = (supported model - deterministic with weight 3/4, else with stochastic transitions for the period-0 "
-    "clause -, batch of 3-9 agents incl. deliberate duplicates, a permutation, a subset, a duplication (agent j "
+    "clause -, batch of 3-9 agents incl. deliberate duplicates (1 case in 8: a large batch of 130-300 agents), a permutation, a subset, a duplication (agent j "
     "repeated k times), a reordering of the keys of initial_states, seed). Five simulations of the real code: "
     "A=batch, B=permuted batch, C=subset, D=with duplicates, E=reordered keys. Rows of the same agent must agree "
     "across runs (discrete exact, floats 1e-12); a differing choice is accepted only if the C02 oracle finds both "
@@ -41,12 +41,17 @@ def cases(draw):
         j = draw(st.integers(0, n - 1))
         k = draw(st.integers(0, n - 1))
         agents[k] = dict(agents[j])
+    big = draw(st.integers(0, 7)) == 0
+    if big:
+        # large batch (130-300 agents): index arithmetic that only breaks beyond 255 rows etc.
+        agents = expand_agents(agents, draw(st.integers(130, 300)))
+        n = len(agents)
     return {
         "spec": spec.to_json(),
         "agents": agents,
         "seed": draw(st.integers(0, 2**31 - 1)),
-        "perm": draw(st.permutations(list(range(n)))),
-        "subset": draw(st.lists(st.integers(0, n - 1), min_size=1, max_size=n, unique=True)),
+        "perm": draw(st.permutations(list(range(n)))) if not big else list(range(n))[::-1],
+        "subset": draw(st.lists(st.integers(0, n - 1), min_size=1, max_size=min(n, 40), unique=True)),
         "dup": [draw(st.integers(0, n - 1)), draw(st.integers(1, 3))],
         "key_perm": draw(st.permutations(list(range(len(spec.states))))),
     }
@@ -101,35 +106,16 @@ def check(case):
             continue
         if sorted(df.columns) != sorted(dfA.columns):
             msgs.append(f"run {name}: columns differ")
-            continue
-        for pos, orig in enumerate(idx):
-            for t in periods:
-                ra, rb = dfA.loc[(t, orig)], df.loc[(t, pos)]
-                cnt["row_comparisons"] += 1
-                bad = []
-                for c in cols:
-                    x, y = float(ra[c]), float(rb[c])
-                    same = (x == y) or (np.isnan(x) and np.isnan(y)) or (
-                        c == "value" or spec.variables.get(c, ("disc",))[0] != "disc"
-                    ) and abs(x - y) <= 1e-12 * max(1.0, abs(x))
-                    if not same:
-                        bad.append((c, x, y))
-                if bad:
-                    if vfull is None:
-                        vfull = simcheck.vfull_list(ref, [np.asarray(a) for a in sol])
-                    ma, _, _ = simcheck.check_rows(spec, ref, dfA, vfull, N)
-                    mb, _, _ = simcheck.check_rows(spec, ref, df, vfull, len(idx))
-                    value_diff = [b for b in bad if b[0] == "value" and abs(b[1] - b[2]) > 1e-9 * max(1.0, abs(b[1]))]
-                    if ma or mb or value_diff:
-                        msgs.append(
-                            f"run {name}: agent {orig} (position {pos}) differs from the base run in period {t}: {bad[:3]}"
-                        )
-                    else:
-                        cnt["ties"] += 1
-                    break  # path diverged (tie or violation): later periods are not comparable
-            if msgs:
-                break
-        if msgs:
+            break
+        cnt["row_comparisons"] += len(idx) * len(list(periods))
+        if vfull is None:
+            vfull = simcheck.vfull_list(ref, [np.asarray(a) for a in sol])
+        m, ties = simcheck.explain_difference(
+            spec, ref, dfA, df, vfull, [(orig, pos) for pos, orig in enumerate(idx)], periods=list(periods)
+        )
+        cnt["ties"] += ties
+        if m:
+            msgs.append(f"run {name}: " + m[0] + " (positions: base run / this run)")
             break
     ch0 = {tuple(float(dfA.loc[(0, i)][c]) for c in spec.choices) for i in range(N)}
     distinct_agents = len({tuple(float(init[s][i]) for s in spec.states) for i in range(N)})
